@@ -1,14 +1,24 @@
 import XmpModel.LoadPost
+import XmpModel.LoadPostHdr
+import XmpModel.LoadPostPlayer
 /-! Native driver for C03.  Reads module dumps / raw-module descriptions in the
 line format of harness/c03_dump.h.
 
 * `begin wf …` … `end`   : evaluate the Lean predicate `WF` clause by clause on the dump of a
   really loaded module; prints `wf ok|FAIL <false clauses> | <tag>`.  A block whose tag does not
   contain `what=load` is a delta on the previous module (only `mod`, `seq`, `ctl` lines).
-* `begin raw …` … `end`  : a raw module description plus the spied `scan` lines; runs the model
-  `finish` and prints `rc <n>`, `trace …`, the dump of the resulting module, `wfc <0|1>`, `end`.
+* `begin raw …` … `end`  : a raw module description plus the spied `scan` lines; prints
+  `oblig ok|FAIL <false clauses of LoaderOblig>`, runs the model `finish` and prints `rc <n>`, `trace …`,
+  the dump of the resulting module, `wfc <0|1>` (WFCommon), `wff <0|1>` (WF), `end`.
+* `begin hdr <tag>`, one line `mod|s3m|xm|it <header fields>`, `end` : the header models of
+  XmpModel/LoadPostHdr.lean; prints `hdr none | <tag>` or `hdr ok <chn pat trk ins smp len rst> rows <r>* | <tag>`.
+* `begin rawload … rc=<n>` … `end` : the raw module of a REAL load (dumped between the format loader's
+  return and the first modification, with the spied `scan` lines and the `cv` flag); prints
+  `oblig ok|FAIL … | <tag>`, `sids ok|FAIL <quirk> | <tag>` (Player.sidsOK), runs `finishV`; a model failure is compared with `rc` at once
+  (`fin ok rc|MISMATCH …`), a model success is kept and compared line by line with the following
+  `begin wf … what=load` block (`fin ok -|MISMATCH line=… | <tag>`).
 -/
-open Xmp Xmp.LoadPost Xmp.Gen.Limits
+open Xmp Xmp.LoadPost Xmp.Gen.Limits Xmp.LoadPost.Hdr Xmp.Gen.C03Hdr
 
 def hexVal (c : Char) : Nat :=
   if c.isDigit then c.toNat - '0'.toNat else c.toNat - 'a'.toNat + 10
@@ -43,6 +53,10 @@ structure B where
   smps : Array Sample := #[]
   xtras : Array Xtra := #[]
   scans : Array (Nat × Nat × ScanRes) := #[]
+  cv : Bool := false
+  hdr : List String := []              -- the words of a `begin hdr` block's description line
+  lines : Array String := #[]          -- the block's own lines (compared with `pending`)
+  pending : Option (List String) := none   -- model result of the preceding `rawload` block
 
 def emptyEnv : Envelope := Envelope.ofFlg 0 0 0 0 0 0 (List.replicate (2 * xmpMaxEnvPoints) 0)
 
@@ -83,6 +97,9 @@ def feed (b : B) (ws : List String) : B :=
              inss := b.inss.push { name := parseHex nm, vol := int vol, nsm := int nsm
                                    sub := if int nsub < 0 then none else some (gv.map int)
                                    aei := emptyEnv, pei := emptyEnv, fei := emptyEnv } }
+  | "u" :: _ :: _ :: sids =>
+    let k := b.inss.size - 1
+    { b with inss := b.inss.modify k fun x => { x with sids := sids.map int } }
   | "e" :: flg :: npt :: sus :: sue :: lps :: lpe :: _ :: data =>
     let d := data.map int
     let d := d ++ List.replicate (2 * xmpMaxEnvPoints - d.length) 0
@@ -98,6 +115,7 @@ def feed (b : B) (ws : List String) : B :=
                                    hasData := hd == "1", guardOK := gd == "1" }
              xtras := b.xtras.push { sus := int xs, sue := int xe } }
   | "seq" :: n :: rest => { b with m := { b.m with numSeq := nat n, seqData := pairsNI rest } }
+  | ["cv", v] => { b with cv := v == "1" }
   | "scan" :: ep :: chain :: time :: _ :: marks =>
     { b with scans := b.scans.push (nat ep, nat chain, { marks := marks.map nat, time := int time }) }
   | _ => b
@@ -132,23 +150,117 @@ def dump (m : Module) (quirk : Nat) : List String := Id.run do
   for x in m.xxi.take m.ins.toNat, i in [0:m.ins.toNat] do
     let (ns, gv) : Int × List Int := match x.sub with | none => (-1, []) | some l => (l.length, l)
     out := out.push s!"i {i} {toHex x.name} {x.vol} {x.nsm} {ns}{ints gv}"
+    out := out.push s!"u {i} {x.sids.length}{ints x.sids}"
     out := out.push (dumpEnv x.aei true)
     out := out.push (dumpEnv x.pei false)
     out := out.push (dumpEnv x.fei false)
   for s in m.xxs.take m.smp.toNat, x in m.xtra.take m.smp.toNat, i in [0:m.smp.toNat] do
-    out := out.push s!"s {i} {toHex s.name} {s.len} {s.lps} {s.lpe} {s.toFlg} {if s.hasData then 1 else 0} 1 {x.sus} {x.sue}"
+    out := out.push s!"s {i} {toHex s.name} {s.len} {s.lps} {s.lpe} {s.toFlg} {if s.hasData then 1 else 0} {if s.guardOK then 1 else 0} {x.sus} {x.sue}"
   out := out.push (s!"seq {m.numSeq}" ++ String.join (m.seqData.map fun p => s!" {p.1} {p.2}"))
   out := out.push s!"ctl {toHex (m.seqCtl.map UInt8.ofNat)}"
   return out.toList
 
-def finishBlock (b : B) : IO Unit := do
+/-- a `mod` line without its last field (`m->quirk`: module_quirks / player modes change it) -/
+def normLine (l : String) : String :=
+  if l.startsWith "mod " then " ".intercalate ((l.splitOn " ").take 13) else l
+
+def firstDiff (a b : List String) (k : Nat := 0) : Option (Nat × String × String) :=
+  match a, b with
+  | [], [] => none
+  | x :: xs, y :: ys => if normLine x == normLine y then firstDiff xs ys (k + 1) else some (k, x, y)
+  | x :: _, [] => some (k, x, "<missing>")
+  | [], y :: _ => some (k, "<missing>", y)
+
+def tagRc (tag : String) : Int :=
+  match (tag.splitOn " rc=") with
+  | [_, r] => int ((r.splitOn " ").getD 0 "")
+  | _ => 0
+
+def obligLine (m : Module) : String :=
+  let bad := (obligClauses m).filter (fun c => !c.2) |>.map (·.1)
+  if bad.isEmpty then "ok -" else s!"FAIL {",".intercalate bad}"
+
+def nats (l : List String) : List Nat := l.map nat
+
+def countsLine (c : Counts) (rows : List Nat) : String :=
+  s!"ok {c.chn} {c.pat} {c.trk} {c.ins} {c.smp} {c.len} {c.rst} rows{String.join (rows.map fun r => s!" {r}")}"
+
+/-- `Option.mapM`-like: all row counts or `none` -/
+def allRows : List (Option Nat) → Option (List Nat)
+  | [] => some []
+  | none :: _ => none
+  | some r :: rest => (allRows rest).map (r :: ·)
+
+def pairsNN : List Nat → List (Nat × Nat)
+  | a :: b :: rest => (a, b) :: pairsNN rest
+  | _ => []
+
+/-- the header models of `XmpModel/LoadPostHdr.lean` on one header description -/
+def hdrAnswer (ws : List String) : String :=
+  match ws with
+  | "mod" :: m0 :: m1 :: m2 :: m3 :: wow :: probe :: len :: restart :: _ :: orders =>
+    match modHeader [nat m0, nat m1, nat m2, nat m3] (wow == "1") (probe == "1") (nat len) (nat restart) (nats orders) with
+    | none => "none"
+    | some c => countsLine c (List.replicate c.pat.toNat modRows)
+  | "s3m" :: ffi :: ordnum :: insnum :: patnum :: mok :: _ :: rest =>
+    let chset := nats (rest.take 32)
+    let orders := nats ((rest.drop 32).drop 1)
+    match s3mHeader (nat ffi) (nat ordnum) (nat insnum) (nat patnum) (mok == "1") chset orders with
+    | none => "none"
+    | some c => countsLine c (List.replicate c.pat.toNat s3mRows)
+  | "xm" :: songlen :: restart :: channels :: patterns :: instruments :: tempo :: bpm :: headersz :: med :: version :: _ :: rows =>
+    match xmHeader (nat songlen) (nat restart) (nat channels) (nat patterns) (nat instruments) (nat tempo) (nat bpm)
+        (nat headersz) (med == "1") 0 with
+    | none => "none"
+    | some c =>
+      match allRows ((nats rows).map (xmPatRows (nat version))) with
+      | none => "none"
+      | some rs => countsLine c (rs ++ [xmExtraRows])
+  | "it" :: ordnum :: insnum :: smpnum :: patnum :: gv :: smode :: maxCh :: _ :: pats =>
+    match itHeader (nat ordnum) (nat insnum) (nat smpnum) (nat patnum) (nat gv) (smode == "1") (nat maxCh) with
+    | none => "none"
+    | some c =>
+      match allRows ((pairsNN (nats pats)).map fun p => itPatRows p.1 p.2) with
+      | none => "none"
+      | some rs => countsLine c rs
+  | _ => "?"
+
+/-- returns the model result to be compared with the next `wf … what=load` block -/
+def finishBlock (b : B) : IO (Option (List String)) := do
   let m := b.module
-  if b.kind == "wf" then
+  let scan : Nat → ScanRes := fun k => (b.scans[k]?.map (·.2.2)).getD { marks := [], time := 0 }
+  if b.kind == "hdr" then
+    IO.println s!"hdr {hdrAnswer b.hdr} | {b.tag}"
+    return none
+  else if b.kind == "wf" then
     let bad := (wfClauses m).filter (fun c => !c.2) |>.map (·.1)
     if bad.isEmpty then IO.println s!"wf ok - | {b.tag}"
     else IO.println s!"wf FAIL {",".intercalate bad} | {b.tag}"
+    match b.pending with
+    | none => pure ()
+    | some ml =>
+      match firstDiff b.lines.toList ml with
+      | none => IO.println s!"fin ok - | {b.tag}"
+      | some (k, r, mo) => IO.println s!"fin MISMATCH line={k} real=[{(r.take 160).toString}] model=[{(mo.take 160).toString}] | {b.tag}"
+    return none
+  else if b.kind == "rawload" then
+    -- the raw module of a real load: obligations, then the model's `finishV` against how the load ended
+    IO.println s!"oblig {obligLine m} | {b.tag}"
+    -- the extra obligation the player's unguarded `sub->sid` uses rely on (C03_player_trusted)
+    IO.println s!"sids {if Player.sidsOK (clampCounts m) then "ok" else "FAIL"} {b.quirk} | {b.tag}"
+    let rc := tagRc b.tag
+    match finishV b.cv scan m with
+    | .error e =>
+      if e.code == rc then IO.println s!"fin ok rc | {b.tag}"
+      else IO.println s!"fin MISMATCH rc real={rc} model={e.code} | {b.tag}"
+      return none
+    | .ok r =>
+      if rc != 0 then
+        IO.println s!"fin MISMATCH rc real={rc} model=0 | {b.tag}"
+        return none
+      else return some (dump r b.quirk)
   else
-    let scan : Nat → ScanRes := fun k => (b.scans[k]?.map (·.2.2)).getD { marks := [], time := 0 }
+    IO.println s!"oblig {obligLine m}"
     match finish scan m with
     | .error e =>
       IO.println s!"rc {e.code}"
@@ -160,7 +272,9 @@ def finishBlock (b : B) : IO Unit := do
       IO.println ("trace" ++ String.join (tr.map fun p => s!" {p.1} {p.2}"))
       for l in dump r b.quirk do IO.println l
       IO.println s!"wfc {if WFCommon r then 1 else 0}"
+      IO.println s!"wff {if WF r then 1 else 0}"
       IO.println "end"
+    return none
 
 partial def loop (h : IO.FS.Stream) (b : B) : IO Unit := do
   let line ← h.getLine
@@ -169,13 +283,17 @@ partial def loop (h : IO.FS.Stream) (b : B) : IO Unit := do
   if l.startsWith "begin " then
     let ws := l.splitOn " "
     let kind := ws.getD 1 ""
-    let isDelta := kind == "wf" && !((l.splitOn "what=load").length > 1)
-    if isDelta then loop h { b with kind := kind, tag := l }
-    else loop h { kind := kind, tag := l }
+    let isLoad := (l.splitOn "what=load").length > 1
+    let isDelta := kind == "wf" && !isLoad
+    if isDelta then loop h { b with kind := kind, tag := l, pending := none, lines := #[] }
+    else loop h { kind := kind, tag := l, pending := if kind == "wf" then b.pending else none }
   else if l == "end" then
-    if b.kind != "" then finishBlock b
-    loop h { b with kind := "" }
+    let pend ← if b.kind != "" then finishBlock b else pure b.pending
+    loop h { b with kind := "", pending := pend }
   else if b.kind == "" then loop h b
-  else loop h (feed b (l.splitOn " "))
+  else if b.kind == "hdr" then loop h { b with hdr := l.splitOn " " }
+  else
+    let b' := feed b (l.splitOn " ")
+    loop h (if b.kind == "wf" && b.pending.isSome then { b' with lines := b'.lines.push l } else b')
 
 def main : IO Unit := do loop (← IO.getStdin) {}
